@@ -101,6 +101,8 @@ class Gen:
                 fl.update(sym=True)
             elif kind == "diag":
                 r = {"k": "diag", "n": n, "dtype": rdt, "seed": s, "pos": True, "layout": lay}
+                if g.random() < 0.2:
+                    r["vals"] = g.choice(["mask", "tiny"])  # a singular / numerically singular diagonal
                 fl.update(psd=True, sym=True, dt=rdt, real=True)
             elif kind == "tridiag":
                 r = {"k": "tridiag", "n": max(n, 2), "dtype": rdt, "seed": s, "symm": g.random() < 0.7, "layout": lay}
@@ -865,6 +867,16 @@ KINDS = {  # name -> (slot, recipe, rows, cols)
     "sl_step2": ("sl_st2", {"k": "getitem", "of": DN, "s0": [0, N, 2], "s1": None}, (N + 1) // 2, N),
     "scalar_one": ("sc_one", {"k": "scalar", "c": 1.0, "n": N}, N, N),
     "tr_identity": ("tr_id", {"k": "transpose_cls", "of": ID}, N, N),
+    # singular structured operators: exact zeros / round-off-level entries on a diagonal (a mask, the spectrum of a rank-deficient
+    # matrix), a zero scalar multiple, composites with such a part -- what "robust" pseudo-inverses, square roots and logs special-case
+    "diag_mask": ("Dgm", {"k": "diag", "n": N, "dtype": "f8", "seed": 141, "vals": "mask"}, N, N),
+    "diag_tiny": ("Dgt", {"k": "diag", "n": N, "dtype": "f8", "seed": 142, "vals": "tiny"}, N, N),
+    "diag_mask_c16": ("Dgmc", {"k": "diag", "n": N, "dtype": "c16", "seed": 143, "vals": "mask"}, N, N),
+    "psd_diag_mask": ("Pdm", _psd({"k": "diag", "n": N, "dtype": "f8", "seed": 144, "vals": "mask"}), N, N),
+    "scalar_zero": ("sc_zero", {"k": "scalar", "c": 0.0, "n": N}, N, N),
+    "bd_mask": ("bd_m", {"k": "blockdiag", "args": [D2, {"k": "diag", "n": 2, "dtype": "f8", "seed": 145, "vals": "mask"}]}, 4, 4),
+    "kron_mask": ("kr_m", {"k": "kron", "args": [{"k": "diag", "n": 2, "dtype": "f8", "seed": 146, "vals": "mask"}, D2]}, 4, 4),
+    "prod_mask": ("pr_m", {"k": "product", "args": [{"k": "diag", "n": N, "dtype": "f8", "seed": 147, "vals": "tiny"}, DN]}, N, N),
     # user-defined operator classes (the class definition is re-executed for "fresh": new class, same qualified name)
     "usercls": ("Uc", {"k": "usercls", "n": N, "seed": 98}, N, N),
     "usercls_fresh": ("Ucf", {"k": "usercls", "n": N, "seed": 99, "fresh": True}, N, N),
@@ -882,7 +894,7 @@ KINDS = {  # name -> (slot, recipe, rows, cols)
     "kernel_mixed": ("Kem", {"k": "kernel", "n": N, "dtype": "f4", "x2dt": "f8", "same": False, "seed": 123, "bs1": 1, "bs2": 2},
                      N, N),
 }
-KIND_DTYPE = {"dense_c16": "c16", "psd_c16": "c16", "diag_c16": "c16", "adj_c16": "c16", "sa_c16": "c16",
+KIND_DTYPE = {"dense_c16": "c16", "psd_c16": "c16", "diag_c16": "c16", "diag_mask_c16": "c16", "adj_c16": "c16", "sa_c16": "c16",
               "dense_f4": "f4", "psd_f4": "f4", "fft": "c16", "tridiag_mixed": "f4", "tridiag_herm_mixed": "f4",
               "kernel_mixed": "f4"}
 for _k, (_slot, _r, _rows, _cols) in KINDS.items():
@@ -904,6 +916,55 @@ ALPHABET.update({
                      mk("R_triT", {"k": "T", "of": {"k": "ref", "slot": "R_tri"}}),
                      call("matvec", A=S("R_triT"), x=arr([N, 2], "f8", 36, layout="f"))],
 })
+
+# an ABORTED product inside a composite whose part is a user operator (the user's matmat raises), then the ordinary products of
+# the same kind of composite on plain operands: whatever the aborted product left behind (a module-level scratch buffer, a
+# half-restored attribute) must not reach them.  The results are compared across histories with the mv_/mm3_ letters' own.
+def _probeify(rec, pid=2):
+    """(recipe with its first array-bearing leaf replaced by a user operator around it, found?)"""
+    import copy
+    rec = copy.deepcopy(rec)
+    done = [False]
+
+    def visit(o):
+        if done[0] or not isinstance(o, dict):
+            return o
+        if o.get("k") in ("dense", "generic", "diag", "tridiag") and not done[0]:
+            done[0] = True
+            return {"k": "probe", "inner": o, "pid": pid}
+        for key in ("of", "a", "b", "inner"):
+            if key in o:
+                o[key] = visit(o[key])
+        if "args" in o:
+            o["args"] = [visit(a) for a in o["args"]]
+        return o
+
+    return visit(rec), done[0]
+
+
+def _shift_selection(rec):
+    import copy
+    r = copy.deepcopy(rec)
+    if r.get("k") == "sliced_cls" and r["s0"][0] == 0 and r["s0"][1] < N:
+        r["s0"] = [r["s0"][0] + 1, r["s0"][1] + 1]
+        r["s1"] = [r["s1"][0] + 1, r["s1"][1] + 1]
+        return r
+    return None
+
+
+for _k in ("sum", "prod", "kron", "kronsum", "bd", "tr", "adj", "sl", "cat", "sliced_full", "sl_rev", "sl_rev_part", "sl_step2", "psd", "prod_il",
+           "sum_if", "kron_il", "kronsum_il"):
+    _slot, _r, _rows, _cols = KINDS[_k]
+    _pr, _ok = _probeify(_r)
+    if not _ok:
+        continue
+    _dt = KIND_DTYPE.get(_k, "f8")
+    _variants = [("", _pr)] + ([("_shifted", _probeify(_shift_selection(_r))[0])] if _shift_selection(_r) else [])
+    for _sfx, _rec in _variants:
+        ALPHABET["products_after_abort_%s%s" % (_k, _sfx)] = (
+            [mk("ab_" + _slot, _rec), call("matvec", A=S("ab_" + _slot), x=arr([_cols, 3], _dt, 39), fx=RAISE0),
+             call("rmatvec", A=S("ab_" + _slot), x=arr([3, _rows], _dt, 40), fx=RAISE0)]
+            + ALPHABET["mv_" + _k] + ALPHABET["mm3_" + _k][1:] + ALPHABET["rmm3_" + _k][1:] + ALPHABET["rmv_" + _k][1:])
 
 # reduced alphabet for the length-3 level (one representative per mechanism)
 ALPHABET3 = ["mk_dense", "mk_identity", "mk_generic", "mk_probe", "sum_b", "sum_l", "prod_b", "prod_l", "kron_b", "kron_l",
